@@ -239,21 +239,69 @@ AsisDen(wbits, L) == Len(wbits[L])
 F05Layer(a, L, wbits, tuple, pc) == pc /\ Has0(tuple) /\ NWith(wbits[L], 0) > 0
 F04Layer(a, L, wbits) == Op(a, L) = "lin" /\ (InEffW(a, wbits, L) # StaticIn(a, L) \/ OutEffW(wbits, L) # StaticOut(a, L))
 
-(* ---------------------- what theta encodes after a call history ---------- *)
-(* "soft"  no forward pass in a hard-sampling mode yet (the conversion samples the new MPS modules in       *)
-(*         training mode: a new model holds a SOFT theta) - the cost is a mixture, nothing is claimed       *)
-(* "fresh" the last sampling was an arg-max of the coefficients that are still installed (forward in eval   *)
-(*         mode, or in training mode with hard_softmax and the plain soft-max sampler)                      *)
-(* "stale" theta is one-hot but sampled with Gumbel noise, or the coefficients were replaced since          *)
-RECURSIVE ThetaFrom(_, _, _)
-ThetaFrom(h, i, st) ==
+(* ---------------------- call histories ----------------------------------- *)
+(* The public calls between the coefficient write and an observation.  Mode of the model:                  *)
+(*   "eval" | "hard" (training, hard_softmax, plain soft-max sampler) | "ghard" (training, hard Gumbel).   *)
+(* Calls:                                                                                                  *)
+(*   to_eval / to_hard / to_ghard   switch the mode (eval() / update_softmax_options + train()), no sample *)
+(*   fwd_g / fwd_n                  forward pass in the CURRENT mode, autograd enabled / under no_grad      *)
+(*   fwd_eval / fwd_hard / fwd_ghard = to_X followed by fwd_n                                              *)
+(*   load / copy / data             other coefficients installed (load_state_dict / in-place copy_ /       *)
+(*                                  .data assignment), no forward pass, no mode switch                     *)
+(*   sgd_net / sgd_all              to_hard, forward + backward with autograd, one SGD step on the network *)
+(*                                  weights only / on all parameters (also the coefficients)               *)
+(*   export, summary, upd           observers (export() restores theta; upd = update_softmax_options(T))   *)
+(*   export!                        export() compared with the eval-mode model: runs an eval forward       *)
+(* What theta encodes:                                                                                     *)
+(*   "soft"  no forward pass in a hard-sampling mode yet (the conversion samples the new MPS modules in    *)
+(*           training mode: a new model holds a SOFT theta) - the cost is a mixture, nothing is claimed    *)
+(*   "fresh" the last sampling was an arg-max of the coefficients that are still installed (forward in     *)
+(*           eval or hard mode) - WHATEVER the autograd mode of that forward pass was                      *)
+(*   "stale" theta is one-hot but sampled with Gumbel noise, or the coefficients were replaced since       *)
+ModeAfter(act, mode) ==
+    CASE act \in {"fwd_eval", "to_eval"} -> "eval"
+      [] act \in {"fwd_hard", "to_hard", "sgd_net", "sgd_all"} -> "hard"
+      [] act \in {"fwd_ghard", "to_ghard"} -> "ghard"
+      [] OTHER -> mode
+IsForward(act)    == act \in {"fwd_eval", "fwd_hard", "fwd_ghard", "fwd_g", "fwd_n", "sgd_net", "sgd_all", "export!"}
+IsAlphaWrite(act) == act \in {"load", "copy", "data", "sgd_all"}
+IsWeightStep(act) == act \in {"sgd_net", "sgd_all"}
+\* st = state of theta before the call, m1 = mode after the call (the mode the forward pass runs in)
+ThetaAfter(act, st, m1) ==
+    IF act = "export!" THEN "fresh"
+    ELSE IF act = "sgd_all" THEN "stale"
+    ELSE IF IsForward(act) THEN (IF m1 = "ghard" THEN "stale" ELSE "fresh")
+    ELSE IF IsAlphaWrite(act) THEN (IF st = "soft" THEN "soft" ELSE "stale")
+    ELSE st
+RECURSIVE ThetaFrom(_, _, _, _)
+ThetaFrom(h, i, st, mode) ==
     IF i > Len(h) THEN st
-    ELSE ThetaFrom(h, i + 1,
-            CASE h[i] \in {"fwd_eval", "fwd_hard"} -> "fresh"
-              [] h[i] = "fwd_ghard" -> "stale"
-              [] h[i] = "load" -> IF st = "soft" THEN "soft" ELSE "stale"
-              [] OTHER -> st)
-ThetaState(h) == ThetaFrom(h, 1, "soft")
+    ELSE LET m1 == ModeAfter(h[i], mode) IN ThetaFrom(h, i + 1, ThetaAfter(h[i], st, m1), m1)
+ThetaState(h) == ThetaFrom(h, 1, "soft", "eval")
+RECURSIVE ModeFrom(_, _, _)
+ModeFrom(h, i, mode) == IF i > Len(h) THEN mode ELSE ModeFrom(h, i + 1, ModeAfter(h[i], mode))
+ModeOf(h) == ModeFrom(h, 1, "eval")
+\* number of weight updates before position i of the history
+WeightVersion(h, i) == Cardinality({j \in 1..(i - 1) : IsWeightStep(h[j])})
+
+(* ---------------------- geometry of an exported layer --------------------- *)
+(* export() must hand the convolution options of the searched layer over to the fake-quantised one *)
+PMOf(nd)  == IF "pm" \in DOMAIN nd THEN nd.pm ELSE "zeros"
+Geom(a, L) == LET nd == Nd(a, L) IN
+    IF Op(a, L) = "lin" THEN [k |-> 1, s |-> 1, d |-> 1, pm |-> "zeros", bias |-> HasBias(a, L)]
+    ELSE [k |-> nd.k, s |-> nd.s, d |-> nd.d,
+          pm |-> IF nd.causal \/ IsValidConv(nd) THEN "zeros" ELSE PMOf(nd),     \* explicit left padding / no padding
+          bias |-> HasBias(a, L)]
+
+(* ---------------------- the output shape a cost function is shown --------- *)
+(* shapes_dict(node): the shape of the tensor the tracing example produced, INCLUDING its batch dimension b. *)
+(* Conv cost functions read out_shape[2] (and [3]), linear ones do not read it: the cost must not depend on b *)
+OutShapeOf(a, L, b) ==
+    IF Op(a, L) = "lin" THEN <<b, Ch(a, L)>>
+    ELSE IF a.dim = 1 THEN <<b, Ch(a, L), Sp(a, L)>> ELSE <<b, Ch(a, L), Sp(a, L), Sp(a, L)>>
+\* (0-based index i of the code = position i + 1 here)
+OXShown(a, L, shp) == IF Op(a, L) = "lin" THEN 1 ELSE shp[3]
+OYShown(a, L, shp) == IF Op(a, L) = "lin" \/ a.dim = 1 THEN 1 ELSE shp[4]
 
 (* ---------------------- candidate tuples -------------------------------- *)
 RECURSIVE Arrangements(_, _)
